@@ -1278,7 +1278,7 @@ def _step5(r, idx, fi, cp):
             cntv = c.args[1].id if isinstance(c.args[1], ast.Name) else None
     if pathv is None or cntv is None:
         raise AnalysisError('__step5: __convert_path(path, count) not found')
-    _step5_path(r, fi, S, pathv, cntv)
+    _step5_path(r, _expand_series_generator(fi, idx, S, pathv, cntv) or fi, S, pathv, cntv)
     # __convert_path
     S2 = cp.params[0]
     label = 'Munkres.__convert_path'
@@ -1322,6 +1322,100 @@ def _step5(r, idx, fi, cp):
 
 
 # ------------------------------------------------------------------ scans and resets
+
+
+def _unmangled(name):
+    """_Munkres__x -> __x"""
+    return name.split('__', 1)[1].join(['__', '']) if name.startswith('_') and not name.startswith('__') and '__' in name else name
+
+
+def _expand_series_generator(fi, idx, S, pathv, cntv):
+    """`for count, (row, col) in enumerate(self.G()): path[count][0] = row; path[count][1] = col` with G a generator method
+    that yields the cells of the series: rewritten to the loop of G with every `yield (a, b)` replaced by the two stores (and
+    the advance of the counter for every yield after the first).  Returns a FuncInfo over the rewritten body, or None."""
+    from ..index import clone, FuncInfo
+    if fi.cls is None:
+        return None
+    site = None
+    for k, st in enumerate(fi.node.body):
+        if isinstance(st, ast.For) and not st.orelse and isinstance(st.target, ast.Tuple) and len(st.target.elts) == 2 \
+                and cm.is_name(st.target.elts[0], cntv) and isinstance(st.target.elts[1], ast.Tuple) and len(st.target.elts[1].elts) == 2 \
+                and all(isinstance(e, ast.Name) for e in st.target.elts[1].elts) \
+                and isinstance(st.iter, ast.Call) and cm.is_name(st.iter.func, 'enumerate') and len(st.iter.args) == 1 and not st.iter.keywords \
+                and isinstance(st.iter.args[0], ast.Call) and cm.is_self_attr(st.iter.args[0].func, S) and not st.iter.args[0].args:
+            site = (k, st)
+    if site is None:
+        return None
+    k, loop = site
+    a_, b_ = [e.id for e in loop.target.elts[1].elts]
+    stores = {}
+    for st in loop.body:
+        if not (isinstance(st, ast.Assign) and len(st.targets) == 1 and isinstance(st.targets[0], ast.Subscript)
+                and isinstance(st.targets[0].value, ast.Subscript) and (cm.is_name(st.targets[0].value.value, pathv)
+                                                                       or cm.is_self_attr(st.targets[0].value.value, S, 'path'))
+                and cm.is_name(st.targets[0].value.slice, cntv) and isinstance(st.value, ast.Name)):
+            return None
+        stores[nf.const_value(st.targets[0].slice, None)] = st.value.id
+    if set(stores) != {0, 1} or len(loop.body) != 2:
+        return None
+    gen = fi.cls.methods.get(loop.iter.args[0].func.attr) or fi.cls.methods.get(_unmangled(loop.iter.args[0].func.attr))
+    if gen is None or len(gen.params) != 1:
+        return None
+    gself = gen.params[0]
+    local = {n.id for n in ast.walk(gen.node) if isinstance(n, ast.Name) and isinstance(n.ctx, ast.Store)}
+
+    class Ren(ast.NodeTransformer):
+        def visit_Name(self, node):
+            if node.id == gself:
+                return ast.Name(id=S, ctx=node.ctx)
+            if node.id in local:
+                return ast.Name(id='_g_' + node.id, ctx=node.ctx)
+            return node
+    state = {'yields': 0, 'bad': None}
+
+    def emit(y, first):
+        if not (isinstance(y, ast.Tuple) and len(y.elts) == 2):
+            state['bad'] = 'yield of something other than a pair'
+            return []
+        out = [] if first else [ast.AugAssign(target=ast.Name(id=cntv, ctx=ast.Store()), op=ast.Add(), value=ast.Constant(value=1))]
+        vals = {a_: y.elts[0], b_: y.elts[1]}
+        for c in (0, 1):
+            out.append(ast.Assign(targets=[ast.Subscript(value=ast.Subscript(value=ast.Name(id=pathv, ctx=ast.Load()),
+                                                                              slice=ast.Name(id=cntv, ctx=ast.Load()), ctx=ast.Load()),
+                                                         slice=ast.Constant(value=c), ctx=ast.Store())], value=clone(vals[stores[c]])))
+        return out
+
+    def conv(stmts, in_loop):
+        out = []
+        for st in stmts:
+            if isinstance(st, ast.Expr) and isinstance(st.value, ast.Constant):
+                continue
+            if isinstance(st, ast.Expr) and isinstance(st.value, ast.Yield):
+                state['yields'] += 1
+                if not in_loop and state['yields'] != 1:
+                    state['bad'] = 'more than one yield before the loop'
+                out.extend(emit(st.value.value, first=not in_loop))
+            elif isinstance(st, ast.Return) and st.value is None and in_loop:
+                out.append(ast.Break())
+            elif isinstance(st, ast.If):
+                out.append(ast.If(test=st.test, body=conv(st.body, in_loop) or [ast.Pass()], orelse=conv(st.orelse, in_loop)))
+            elif isinstance(st, ast.While) and not in_loop and not st.orelse:
+                out.append(ast.While(test=st.test, body=conv(st.body, True), orelse=[]))
+            elif isinstance(st, (ast.Assign, ast.AugAssign, ast.Pass)) and not any(isinstance(n, (ast.Yield, ast.YieldFrom)) for n in ast.walk(st)):
+                out.append(st)
+            else:
+                state['bad'] = 'statement `%s` of the generator not supported' % short(st)
+        return out
+    body = conv(Ren().visit(clone(gen.node)).body, False)
+    loops = [x for x in body if isinstance(x, ast.While)]
+    if state['bad'] or len(loops) != 1 or body[-1] is not loops[0] or state['yields'] < 2:
+        return None
+    node = clone(fi.node)
+    node.body = node.body[:k] + body + node.body[k + 1:]
+    ast.fix_missing_locations(node)
+    if gen.qualname in (idx.unreviewed or []):
+        idx.unreviewed.remove(gen.qualname)          # read in full here
+    return FuncInfo(fi.qualname, node, fi.module, fi.cls, fi.outer)
 
 
 def _step5_path(r, fi, S, pathv, cntv):
@@ -1386,14 +1480,23 @@ def _step5_path(r, fi, S, pathv, cntv):
     init_cnt = [n.value for n in fi.node.body if isinstance(n, ast.Assign) and len(n.targets) == 1 and cm.is_name(n.targets[0], cntv)]
     start_ok = len(init_cnt) == 1 and nf.const_value(init_cnt[0], None) == 0
     pre_written = {}
+    pre_env = {}          # plain locals set before the loop
+    carried = {}          # local -> component c: the local holds path[count][c] whenever the loop head is reached
+    loop_assigned = {n.id for x in w.body for n in ast.walk(x) if isinstance(n, ast.Name) and isinstance(n.ctx, ast.Store)}
     for n in fi.node.body:
         if n is w:
             break
+        if isinstance(n, ast.Assign) and len(n.targets) == 1 and isinstance(n.targets[0], ast.Name) and n.targets[0].id not in (cntv, pathv):
+            pre_env[n.targets[0].id] = nf.canon(nf.subst(_clone(n.value), pre_env))
+            carried.pop(n.targets[0].id, None)
         if isinstance(n, ast.Assign) and len(n.targets) == 1 and isinstance(n.targets[0], ast.Subscript) \
                 and isinstance(n.targets[0].value, ast.Subscript) and is_path(n.targets[0].value.value):
             off = offset(n.targets[0].value.slice, 0)
             off = 0 if off == ('abs', 0) else off
-            pre_written[(off, nf.const_value(n.targets[0].slice, None))] = nf.canon(n.value)
+            c_ = nf.const_value(n.targets[0].slice, None)
+            pre_written[(off, c_)] = nf.canon(nf.subst(_clone(n.value), pre_env))
+            if off == 0 and c_ in (0, 1) and isinstance(n.value, ast.Name) and n.value.id in loop_assigned:
+                carried[n.value.id] = c_
     z0 = (pre_written.get((0, 0)), pre_written.get((0, 1)))
     definite, problems = [], []
     if not start_ok:
@@ -1416,7 +1519,7 @@ def _step5_path(r, fi, S, pathv, cntv):
     for p in paths:
         delta, written = 0, {}
         order = []
-        loc_env = {}
+        loc_env = {v: ast.Name(id='READ_0_%d' % c_, ctx=ast.Load()) for v, c_ in carried.items()}
         try:
             for e in p.effects:
                 if isinstance(e, ast.Assign) and len(e.targets) == 1 and isinstance(e.targets[0], ast.Name) \
@@ -1440,9 +1543,18 @@ def _step5_path(r, fi, S, pathv, cntv):
         except AnalysisError as ex:
             problems.append(str(ex))
             continue
+        leaves = p.leaf.kind in ('ret', 'raise') or any(isinstance(e, ast.Break) for e in p.effects)
         if not written:
-            continue        # the terminating path (no star in the column): nothing is appended
+            # the terminating path (no star in the column): nothing is appended
+            if carried and not leaves and any(not cm.is_name(loc_env[v], 'READ_0_%d' % c_) for v, c_ in carried.items()):
+                problems.append('a pass of the loop that appends nothing changes %s, which the next pass reads as the last path element'
+                                % sorted(carried))
+            continue
         extended += 1
+        if carried and not leaves:
+            stale = [v for v, c_ in sorted(carried.items()) if written.get((delta, c_)) is None or not nf.equal(written[(delta, c_)], loc_env[v])]
+            if stale:
+                problems.append('at the end of a pass the local(s) %s no longer hold the last path element, which the next pass assumes' % stale)
         guards = [nf.canon(nf.subst(Reads(0, {}).visit(_clone(g)), loc_env)) for g in p.guards]
         last_col = 'READ_0_1'
         star_row = nf.pat('%s.__find_star_in_col(%s)' % (S, last_col))
